@@ -622,6 +622,14 @@ theorem hotDeliver_sorted {α} (msgs : List (Msg α)) (created sub disp : Int)
   rw [enqueueAll_sorted [] _ (by simpa using hm), List.nil_append, runQueue_sorted created _ hm]
   exact filter_clamp created sub disp hc _
 
+theorem hotDeliverLate_sorted {α} (msgs : List (Msg α)) (created sub disp : Int)
+    (hs : msgs.Pairwise (fun a b => a.1 ≤ b.1)) :
+    hotDeliverLate msgs created sub disp =
+      (msgs.map fun m => (created + m.1, m.2)).filter (fun m => decide (sub ≤ m.1) && decide (m.1 < disp)) := by
+  have hm := map_sorted msgs created hs
+  simp only [hotDeliverLate]
+  rw [enqueueAll_sorted [] _ (by simpa using hm), List.nil_append]
+
 /-! ### the delivery loop of `hot` -/
 theorem loopFixed_all (terminal : Bool) (snapshot live : List Nat) : loopFixed terminal snapshot live = snapshot := by
   induction snapshot generalizing live with
